@@ -33,7 +33,15 @@ pub fn generate(rng: &mut Rng, seed: u64, run: u64, max_len: usize) -> Trace {
         _ => Flavor::Sgr,
     };
     // mostly plain data (the property's strip clause needs escape-free data), sometimes escape-rich
-    let mut wl = gen::workload(rng, flavor, max_len.min(if surface == "file" { 128 } else { 512 }));
+    // (rarely a payload beyond 64 KiB, offered in one call)
+    let big = surface != "file" && rng.chance(1, 400);
+    let mut wl = gen::workload(rng, flavor, if big { 150_000 } else { max_len.min(if surface == "file" { 128 } else { 512 }) });
+    if big {
+        let want = *rng.pick(&[65_537usize, 70_000, 100_000, 140_000]);
+        while wl.bytes.len() < want {
+            wl.bytes.push(0x20 + rng.below(0x5f) as u8);
+        }
+    }
     if rng.chance(3, 5) {
         wl.bytes.retain(|b| (0x20..0x7f).contains(b));
         wl.toks.clear();
@@ -44,8 +52,8 @@ pub fn generate(rng: &mut Rng, seed: u64, run: u64, max_len: usize) -> Trace {
     // a history of coloured writes
     let mut ops = Vec::new();
     let mut covered = 0;
-    let mode = rng.below(3);
-    if rng.chance(1, 6) {
+    let mode = if big { 0 } else { rng.below(3) };
+    if !big && rng.chance(1, 6) {
         // line mode: a caller that writes each line's text and its terminator as separate
         // coloured writes ("\n" and "\r\n" on their own)
         wl.bytes.clear();
@@ -96,6 +104,10 @@ pub fn generate(rng: &mut Rng, seed: u64, run: u64, max_len: usize) -> Trace {
         let mut v = Vec::new();
         for _ in 0..rng.range(1, 4) {
             let at = rng.range(0, out_len);
+            if big {
+                // a short count somewhere inside the big payload
+                v.push(Fault { at: rng.range(0, n), kind: FaultKind::Short(rng.range(1, 50_000)), times: 1 });
+            }
             let kind = match rng.below(12) {
                 0..=3 => FaultKind::Short(rng.range(1, 4)),
                 4 | 5 => FaultKind::Zero,
